@@ -5,7 +5,7 @@
    includes are walked first, then it is merged (post-order), and its name is recorded.  The
    merge order itself is compared on every run with an independent reading of the property
    through the trace parameter. *)
-From RV Require Import Model.Node Proofs.NamesFacts Proofs.NodeFacts.
+From RV Require Import Model.Node Proofs.NamesFacts Proofs.NodeFacts Proofs.WalkFold.
 
 (** Each class is merged the first time it is reached and never again: the record of merged
     classes never holds a name twice. *)
@@ -53,6 +53,27 @@ Theorem C01_postorder_and_node_last :
         render_params fi n1)).
 Proof. split; reflexivity. Qed.
 Eval cbv in "ASSUMPTIONS-OF C01_postorder_and_node_last"%string. Print Assumptions C01_postorder_and_node_last.
+
+(** The walk is a fold: what an entity's walk accumulates from nothing is exactly the empty
+    accumulator merged (Node::merge_into) with the recorded classes -- each once, in the order of
+    the record, which is post-order -- and then with the entity itself.  [is_class name cn]: reading
+    the class [name] yields [cn]. *)
+Theorem C01_walk_is_the_ordered_merge_of_the_recorded_classes :
+  forall fi cfg tbl f self c' seen' root',
+    render_impl f fi cfg tbl self [] [] empty_node = Ok (c', seen', root') ->
+    NoDup seen' /\
+    exists nodes, Forall2 (is_class cfg tbl) seen' nodes /\ merge_seq empty_node (nodes ++ [self]) = Ok root'.
+Proof. exact walk_is_ordered_merge. Qed.
+Eval cbv in "ASSUMPTIONS-OF C01_walk_is_the_ordered_merge_of_the_recorded_classes"%string. Print Assumptions C01_walk_is_the_ordered_merge_of_the_recorded_classes.
+
+(** ... from any starting point: the accumulator is extended by the newly recorded classes only. *)
+Theorem C01_walk_extends_the_accumulator_by_new_classes_only :
+  forall fi cfg tbl f cn seen loading root c' seen1 root1,
+    render_impl f fi cfg tbl cn seen loading root = Ok (c', seen1, root1) ->
+    exists new nodes, seen1 = seen ++ new /\ Forall2 (is_class cfg tbl) new nodes /\
+                      merge_seq root (nodes ++ [cn]) = Ok root1.
+Proof. intros fi cfg tbl f. exact (render_impl_fold fi cfg tbl f). Qed.
+Eval cbv in "ASSUMPTIONS-OF C01_walk_extends_the_accumulator_by_new_classes_only"%string. Print Assumptions C01_walk_extends_the_accumulator_by_new_classes_only.
 
 (** An include entry that resolves to a class currently being loaded is an include loop: an
     error naming it. *)
